@@ -161,6 +161,22 @@ theorem interval_literal (pre s post : Str) (hpre : Clean pre) (hs : NUL ∉ s) 
     decide
   exact lit_in_context (pre ++ "interval ".toList) s post hclean hs hpost
 
+/-! ## 4b. the Cypher debug comment in front of the statement (translate.FromCypher) -/
+
+/-- Every line of the comment header starts with `--`, for BOTH values of `stripLiterals` and ALL texts (a line ends
+at `\\n` or `\\r`, the two characters that end a `--` comment for the server; every other line-break character —
+VT, FF, NEL, U+2028, U+2029 — is an ordinary character inside the comment). Seeded change C04-r4-2 skipped the
+newline rewriting for `stripLiterals = true`: back-ticked keys, variables and aliases are not literals. -/
+theorem comment_header_all_lines_commented (text : Str) (stripLiterals : Bool) :
+    linesCommented .start (commentHeader text stripLiterals) = true :=
+  linesCommented_header text stripLiterals
+
+/-- consequently the header is invisible to the server's lexer: the tokens of header ++ statement are the tokens of
+the statement, whatever the (NUL-free) Cypher text contains -/
+theorem comment_header_invisible (text sql : Str) (stripLiterals : Bool) (h : NUL ∉ text) :
+    lex (commentHeader text stripLiterals ++ sql) = lex sql :=
+  lex_commentHeader text sql stripLiterals h
+
 /-! ## 5. identifiers (variable names, result aliases) -/
 
 /-- the symbol of a Cypher variable / alias as the frontend stores it (`ctx.GetText()`): a name is either written
@@ -344,6 +360,11 @@ example : lex ("-- match (n) where n.name = 'x\n-- delete from node; --' return 
 example : lex "U&'d\\0061t' u&\"a\"\"b\" E'a\\'b' $t$x'$t$ x'1f' /* a /* b */ c */ 1".toList =
     [.ustr "d\\0061t".toList, .uident "a\"b".toList, .estr "a\\'b".toList, .dollar ['t'] "x'".toList, .bstr "1f".toList, .num ['1']] := by decide
 example : lex "u & 'a' u&x".toList = [.word ['u'], .op ['&'], .str ['a'], .word ['u'], .op ['&'], .word ['x']] := by decide
+-- the header of a text with a bare carriage return inside a back-ticked key, for both option values
+example : String.ofList (commentHeader "match (n) where n.`a\rdelete from node; --` = $STRIPPED return n".toList true) =
+    "-- match (n) where n.`a\n-- delete from node; --` = $STRIPPED return n\n" := by decide
+example : lex (commentHeader "x\u2028y\x0bz\x0c\u0085w\r\nq".toList false ++ "select 1;".toList) = lex "select 1;".toList := by decide
+example : linesCommented .start "-- a\rdelete from node; --\nselect 1;".toList = false := by decide
 -- the NUL guard is needed: the server's view of the text ends at the NUL
 example : lex (pgQuote ['a', NUL, 'b'] ++ " x".toList) = [.err "unterminated quoted string", .nul] := by decide
 -- decoder: accepted and rejected tokens
